@@ -123,6 +123,7 @@ func srp(s int64, clock int64, extraClient bool) (secrets, string) {
 
 func main() {
 	run := vr.New("C19", "exploration")
+	defer run.Recover()
 	run.Rule("environment alphabet: global math/rand seed in {1, 2, 0x5eed} x pinned clock in {T0, T0+1s} x scenario {key exchange, key exchange after creating another client, SRP answer, SRP answer after creating a client, SRP answer to a challenge that carries 8 / 256 bytes of server-chosen secure_random} x fault {none, the 1st / 2nd / 3rd read of the OS random source fails, or returns 00..00, or returns ff..ff}; each environment is run twice and all runs are compared pairwise; a secret that repeats is a violation, and so is any 8-byte window of a nonce that occurs twice anywhere in the 12 consecutive exchanges of a group; non-trivial = distinct (scenario, environment, secret) comparison")
 	run.Assume("bytes from the OS source differ between runs with probability 1 - 2^-128, so a repeat is a reproducible derivation, not chance",
 		"LIMIT: this decides the property for the draw sites these drivers execute and for the reproducible inputs that are pinned (global math/rand state, the clock); a generator seeded from an input that is not pinned (pid, hostname) would pass, and paths no driver executes are not covered - provenance on all paths is a data-flow question outside this technique")
